@@ -68,7 +68,16 @@ func (c *check) Init(tier string, seed int64) engine.Space {
 	}
 	var pnames []string
 	for _, p := range props {
-		pnames = append(pnames, p.name+" on <"+p.tag+">")
+		n := p.name + " on <" + p.tag + " " + p.hint + "=…>"
+		if p.sheetHint {
+			n += " (hint given by a rule of the hint sheet)"
+		} else {
+			n += " (hint computed from the attribute)"
+		}
+		if p.hintOnly {
+			n += " (only the cases holding the hint)"
+		}
+		pnames = append(pnames, n)
 	}
 	var ks []string
 	seen := map[string]bool{}
@@ -93,7 +102,8 @@ func (c *check) Init(tier string, seed int64) engine.Space {
 			"instances_pair_menu": n, "instances_triple_menu": r,
 			"multi_match_selector_lists": "the selector lists after #z,T are instantiated for the ua, user, style, nest& and nestrel carriers (triples: style only)",
 			"importance":                 []string{"normal", "!important (except UA sheet and hints)"},
-			"arrangements":               variantName, "hints": []string{"on", "off"}, "device_media": []string{"print", "screen (pairs with hints on only)"},
+			"declaration_block_shapes":   "d = the carrier's declaration, n = the nested rule holding it, F = a declaration of another property, N = a nested rule of another property, X = a nested rule with an invalid selector (&:bogus), U = a nested rule for a parsed but unsupported pseudo-element (&::selection): d, dX, Xd, dU, Ud, {Xn}, {Un}, dNF, FNd, dN, Nd, NdN, FNdNF, {n}, {nF}, {FnF}, {NnF}, {n:dNF}; the merge arrangement concatenates the blocks of adjacent carriers (e.g. d!+Nd = S{P:a!important;&{top:0}P:b}); dNF also in the ua, user, <link>, @import sheets and inside @media",
+			"arrangements":               []string{"share", "split", "merge (also merges adjacent @media blocks of the same query)"}, "hints": []string{"on", "off"}, "device_media": []string{"print", "screen (pairs with hints on only)"},
 			"list_length": map[string]int{"quick": 2, "thorough": 3},
 		},
 		Assumptions: []string{
@@ -110,10 +120,12 @@ func (c *check) Init(tier string, seed int64) engine.Space {
 
 var propKeys = map[string]pr.KnownProp{
 	"color": pr.PColor, "text-align": pr.PTextAlignAll, "width": pr.PWidth, "background-color": pr.PBackgroundColor,
+	"list-style-type": pr.PListStyleType, "vertical-align": pr.PVerticalAlign, "clear": pr.PClear,
 }
 
 // base is the computed value expected when no declaration applies (initial / inherited value).
-var baseCanon = map[string]string{"color": "#000000", "text-align": "start", "width": "auto", "background-color": "rgba(0,0,0,0)"}
+var baseCanon = map[string]string{"color": "#000000", "text-align": "start", "width": "auto", "background-color": "rgba(0,0,0,0)",
+	"list-style-type": "disc", "vertical-align": "baseline", "clear": "none"}
 
 func canon(v pr.CssProperty) string {
 	switch v := v.(type) {
@@ -125,6 +137,10 @@ func canon(v pr.CssProperty) string {
 		return fmt.Sprintf("rgba(%d,%d,%d,%g)", r, g, b, v.RGBA.A)
 	case pr.String:
 		return string(v)
+	case pr.CounterStyleID:
+		if v.Type == "" && len(v.Symbols) == 0 {
+			return v.Name
+		}
 	case pr.DimOrS:
 		if v.S != "" {
 			return v.S
@@ -239,6 +255,9 @@ func (c *check) runCase(ctx *engine.Ctx, cfg config, insts []inst) {
 		return // see Assumptions
 	}
 	p := &props[cfg.prop]
+	if p.hintOnly && nh == 0 && len(insts) > 0 {
+		return // see propDef.hintOnly
+	}
 	seen := map[string]bool{}
 	for v := varShare; v <= varMerge; v++ {
 		d := build(p, insts, v)
